@@ -10,7 +10,13 @@ use core::ops::{Index, IndexMut};
 use core::slice::SliceIndex;
 #[cfg(feature = "cache_metrics")]
 use core::sync::atomic::AtomicU64;
+#[cfg(not(redb_verif))]
 use core::sync::atomic::{AtomicBool, AtomicUsize, Ordering};
+#[cfg(redb_verif)]
+use {
+    crate::sync::verif::atomic::{AtomicBool, AtomicUsize},
+    core::sync::atomic::Ordering,
+};
 
 // Allocates an `Arc<[u8]>` in one step. `Arc::<[u8]>::from(vec![0; len])` would
 // allocate the Vec and then allocate a new Arc and memcpy into it.
